@@ -135,6 +135,58 @@ def analyse(R, runner, trace, tag):
             R.proof_problems.append("runner rejected the harness trace: " + l[:300])
 
 
+def run_proto(R, exe, runner, n, seed):
+    """protocol level: real Start() loops over a simulated network; spec oracle against the physical topology"""
+    trace = os.path.join(R.work, "ptrace")
+    env = vlib.goenv(); env.update(VERIF_SEED=str(seed), VERIF_N=str(n), VERIF_OUT=trace)
+    rc, out = vlib.sh([exe, "-test.run", "TestProto$", "-test.count=1", "-test.timeout=0"], env=env, timeout=3000)
+    if rc != 0:
+        R.oracle_failure("proto-harness-crash", "the protocol-level harness aborted (panic or deadlock of the real router loops)",
+                         dict(output=out[-3000:], seed=seed, n=n))
+        return
+    rc, out = vlib.sh("%s < %s" % (runner, trace), timeout=3000)
+    if "DONE" not in out:
+        R.proof_problems.append("runner did not finish on the protocol trace: " + out[-300:])
+    lines = open(trace, errors="replace").read().split("\n")
+    d = R.coverage.setdefault("distribution", {})
+    ncase = nchk = nontriv = 0
+    seen = set()
+    cur = []
+    def close():
+        nonlocal nontriv
+        if cur and sum(1 for l in cur if l.startswith("chkphys")) >= 2 and any(";" in l.split(" ent=")[1] for l in cur if l.startswith("obs ")):
+            h = hashlib.sha1("\n".join(l for l in cur if l.startswith(("case", "node", "phys"))).encode()).hexdigest()
+            if h not in seen:
+                seen.add(h); nontriv += 1
+    for l in lines:
+        if l.startswith("case "):
+            close(); cur = [l]; ncase += 1
+        elif l.startswith("stat "):
+            p = l.split(); d["proto_" + p[1]] = d.get("proto_" + p[1], 0) + int(p[2])
+        else:
+            if l.startswith("chkphys"): nchk += 1
+            cur.append(l)
+    close()
+    d["proto_cases"] = d.get("proto_cases", 0) + ncase
+    d["proto_checks"] = d.get("proto_checks", 0) + nchk
+    R.add_cases(ncase, nontriv, [l for l in lines if l.startswith("case ")][:1])
+    for l in out.split("\n"):
+        if l.startswith("ORACLE"):
+            p = l.split(" ", 4)
+            ln = int(p[1]); which = p[3]; detail = p[4] if len(p) > 4 else ""
+            # the case this line belongs to
+            start = max(k for k in range(ln) if lines[k].startswith("case "))
+            ctx = [x for x in lines[start:ln] if x.startswith(("case", "node", "phys", "chkphys"))]
+            what = {"neighbours": "after waiting longer than the dead interval the real routers' neighbour tables are not the physical topology",
+                    "table_ok_proto": "the real routers (running their own Start loops) did not reach the shortest-path tables of the physical topology",
+                    "adv_ok": "an advertisement of the real router lists a destination whose best cost is >= infinity"}.get(which, which)
+            R.oracle_failure("proto:%s:%s" % (which, hashlib.sha1(detail.encode()).hexdigest()[:10]), what,
+                             dict(case=p[2], detail=detail[:3000], context=ctx[-60:], seed=seed,
+                                  replay_hint="VERIF_SEED=%d VERIF_N=%d TestProto of harness/dv, case %s" % (seed, n, p[2])))
+        elif l.startswith(("BADLINE", "DIVERGE")):
+            R.proof_problems.append("runner on protocol trace: " + l[:300])
+
+
 def replay_ops(R, exe, runner, ops, tag="rp"):
     """re-run exactly these case/node/ev/chk lines on the implementation and the model; returns the runner output"""
     opsf = os.path.join(R.work, "ops-%s.txt" % tag)
@@ -216,7 +268,10 @@ def run(R):
     R.coverage["rule"] = ("one evaluation = one generated case: a connected graph on 2..6 real dv.Router objects with random names (random tie-break order), "
                           "bring-up, fair rounds (random permutations with repetitions), 2-3 fault phases (link/router loss and re-addition in random order, partial rounds) "
                           "each followed by INF+maxdist+1 fair rounds and the convergence oracle; every event is replayed on the extracted model and the whole RIB compared. "
-                          "non-trivial = at least 3 event kinds and some router learnt a remote destination; distinct by SHA-1 of the event list")
+                          "non-trivial = at least 3 event kinds and some router learnt a remote destination; distinct by SHA-1 of the event list. "
+                          "Protocol-level cases (proto_*): 2..6 real routers running their own Start() loops (tickers, Sync Interests, advertisement fetches with 15% loss, ribUpdate goroutines) "
+                          "over a simulated network in virtual time, 2-3 phases of link/router loss and return, spec oracle against the physical topology after each; "
+                          "non-trivial = at least two checks and a learnt remote destination")
     # corpus first: minimised histories kept from earlier failures (mutation trials)
     cdir = os.path.join(vlib.VERIF, "corpus", "C18")
     ncorp = 0
@@ -235,6 +290,7 @@ def run(R):
                 R.proof_problems.append("corpus history %s: %s" % (os.path.basename(f), l[:300]))
     R.coverage.setdefault("distribution", {})["corpus_histories"] = ncorp
     runs = [(120, R.seed, False, "")] if R.quick else [(0, R.seed, True, "-all"), (1500, R.seed + 1, False, "-rand")]
+    run_proto(R, exe, runner, 60 if R.quick else 3000, R.seed)
     for n, seed, exh, tag in runs:
         trace = run_harness(R, exe, n, seed, exh, tag)
         if trace is None:
